@@ -33,7 +33,13 @@ func drawC06(t *rapid.T) *Case {
 		cp := &ClientPlan{ID: ci, Addr: addr, Hello: hello}
 		m := &ClientMeta{Proto: proto}
 		if proto == "h2" {
-			sc := DrawH2Script(t, H2GenOpts{ClientID: ci, MaxReqs: 3, ExtraMax: 2, TailFrames: false})
+			burst := 0
+			if drawBool(t, "bigfp", 12) {
+				// a connection whose HTTP/2 fingerprint runs to a kilobyte and more (what rendering
+				// it leaves behind must not show in anybody else's)
+				burst = rapid.IntRange(90, 400).Draw(t, "bigfpn")
+			}
+			sc := DrawH2Script(t, H2GenOpts{ClientID: ci, MaxReqs: 3, ExtraMax: 2, TailFrames: false, PrioBurst: burst})
 			// make the preamble unique too
 			sc.Groups[0] = append([]Frame{}, sc.Groups[0]...)
 			aux.Scripts[ci] = sc
